@@ -55,11 +55,52 @@ func c07Step(twin bool) {
 		return
 	}
 	verif.Assert("immutable-bytes-unchanged", !diff)
-	// pointer update is consistent: either unchanged (local delivery / hand-over to sibling before
-	// egress processing) or advanced
-	newHF := int(verif.Concrete(uint64(out[c.metaOff] & 63)))
-	verif.Assert("currhf-never-decreases", newHF >= h && newHF <= h+2)
-	verif.Observe("ptr", newHF)
+	// exact mutable state (scion-header.rst "AS Traversal Operations"; this is also the router
+	// transfer lemma C22(c)): SegID of the segment the packet arrived on is updated at ingress
+	// against construction direction; after an effective cross-over the new segment is current; the
+	// router that owns the egress interface updates the current SegID in construction direction
+	// and advances the pointer; peering hops never update.
+	// The exact rule is stated for well-formed paths: in a two-segment path the Peer flag is set on
+	// both info fields or on neither (a peering path has exactly two segments, both flagged).
+	if c.nInf == 2 && rf.peer(0) != rf.peer(1) {
+		verif.Cover("mixed-peer-flags")
+		return
+	}
+	k := h
+	seg := [3]uint16{rf.segID(0), 0, 0}
+	if c.nInf > 1 {
+		seg[1] = rf.segID(1)
+	}
+	if c.nInf > 2 {
+		seg[2] = rf.segID(2)
+	}
+	if u.external() && !rf.consDir(i) && !u.peerHop(h) {
+		seg[i] ^= rf.sigma(h)
+	}
+	local := u.localDelivery()
+	wantHF := h
+	if !local && u.xoverPos(h) {
+		k = h + 1
+		wantHF++
+	}
+	ownEgress := !local && (u.pkt.egress == vrIf1 || u.pkt.egress == vrIf2)
+	if ownEgress {
+		ik := rf.infOf(k)
+		if rf.consDir(ik) && !u.peerHop(k) {
+			seg[ik] ^= rf.sigma(k)
+		}
+		wantHF++
+	}
+	okSeg := true
+	for j := 0; j < c.nInf; j++ {
+		okSeg = okSeg && be16(out, c.infoOff+8*j+2) == seg[j]
+	}
+	verif.Assert("segids-exactly-as-specified", okSeg)
+	if wantHF < c.nHop {
+		wantINF := rf.infOf(wantHF)
+		verif.Assert("pointers-exactly-as-specified", out[c.metaOff] == byte(wantINF<<6|wantHF))
+	}
+	verif.Observe("ptr", out[c.metaOff])
 }
 
 func VerifC07() { c07Step(false) }
